@@ -54,6 +54,37 @@ theorem numbering_documented :
     Gen.C19.suffixShiftDocumented = true ∧ Gen.C19.prefixShiftDocumented = true ∧ Gen.C19.cutOffInit = 0 ∧
     Gen.C19.headMarker = -1 := by decide
 
+/-- the whole bodies of `get_nn_dist`, `add_chain_suffix`, `add_chain_prefix`, `trace_chains` — with
+parameters and local variables renamed to the documented names by binding position, comments and
+layout ignored — are the documented ones (digest of the syntax tree). Every statement counts, also
+those in branches no generated case executes (`output_motl`, the feature-set test): an added, removed
+or edited statement breaks this theorem; a renaming of local variables does not. -/
+theorem bodies_documented :
+    Gen.C19.bodyDigests = [146488371323970315, 209518513822851188, 723751338633858201, 660282866813664413] := by
+  decide
+
+/-- the signature defaults the statement and the adapter's omitted keywords depend on:
+`min_distance = 0` (the window is `(0, max]`), tomograms are the values of `tomo_id`, and the three
+columns written are `object_id`, `geom2`, `geom4` — in `trace_chains` and in both merge helpers -/
+theorem defaults_documented :
+    Gen.C19.minDistanceDefault = 0 ∧ Gen.C19.featureDefault = "tomo_id" ∧
+    Gen.C19.storeDefaults = ["object_id", "geom2", "geom4"] ∧
+    Gen.C19.helperStoreDefaults = [["object_id", "geom2", "geom4"], ["object_id", "geom2", "geom4"]] := by decide
+
+/-- the columns the statement observes (object number, order number, recorded distance) are the
+default store columns of the signature -/
+theorem store_documented : Store.gen = some Store.documented := by decide
+
+/-- how the column names reach the merge helpers, AS OBSERVED in the source today: `store_idx1` and
+`store_idx2` are forwarded, `store_dist` is not (the helpers then use their own default `geom4`).
+With the default names this is immaterial (`defaults_documented`: both defaults are `geom4`), which
+is the configuration the statement is about; a non-default `store_dist` is outside its quantifier
+and is exercised as an observation only (see RULE in harness/props/c19.py). -/
+theorem merge_calls_as_observed :
+    Gen.C19.suffixCall = ["ch_m", "fm_exit", "nfm_df", "first_idx", "first_dist", "store_idx1", "store_idx2"] ∧
+    Gen.C19.prefixCall = ["ch_m", "fm_entry", "nfm_df", "nm_idx", "nm_dist", "store_idx1", "store_idx2", "class_max=class_max"] ∧
+    Gen.C19.storeDistForwarded = false := by decide
+
 /-! ### the statement -/
 
 /-- clause 1: every particle is returned exactly once (and under its own tomogram) -/
@@ -113,6 +144,76 @@ theorem once_no_span (cs : List (Cfg α)) (out : List (ORow α)) (h : Once cs ou
 /-- **Chains never span tomograms** (model, all inputs) -/
 theorem trace_no_span (o : Opts) (cs : List (Cfg α)) : NoSpan cs (runAll o cs) :=
   once_no_span cs _ (trace_partition_all o cs)
+
+/-! ### clause 1, second half: the returned row is the particle (its other 17 fields) -/
+
+/-- every returned row agrees with the entry-list row of its particle in every field that tracing
+does not write -/
+def Unaltered {β : Type} (st : Store) (entry : Nat → Nat → Particle β) (out : List (PRow β)) : Prop :=
+  ∀ r ∈ out, ∀ f : Field, st.writes f = false → r.2.2.get f = (entry r.1 r.2.1).get f
+
+/-- "returns every particle exactly once", both halves: the keys are a permutation of the input keys
+and every row carries its particle's other fields -/
+def OnceUnaltered {β : Type} (cs : List (Cfg α)) (st : Store) (entry : Nat → Nat → Particle β)
+    (out : List (PRow β)) : Prop :=
+  (out.map (fun r => (r.1, r.2.1))).Perm (allKeys cs) ∧ Unaltered st entry out
+
+/-- with the documented store columns the fields left alone are the other 17 -/
+theorem other_fields_documented :
+    otherFields Store.documented =
+      [.score, .geom1, .subtomo_id, .tomo_id, .subtomo_mean, .x, .y, .z, .shift_x, .shift_y, .shift_z,
+       .geom3, .geom5, .phi, .psi, .theta, .cls] ∧ (otherFields Store.documented).length = 17 := by decide
+
+/-- whatever the three store columns are, a field is either written or listed as "other" -/
+theorem otherFields_mem (st : Store) (f : Field) : f ∈ otherFields st ↔ st.writes f = false := by
+  simp [otherFields, Field.mem_all]
+
+/-- **Soundness of the field checker run on the implementation's output.** -/
+theorem check_fields_sound {β : Type} [DecidableEq β] (st : Store) (entry : Nat → Nat → Particle β)
+    (out : List (PRow β)) (h : chkFields st entry out = true) : Unaltered st entry out := by
+  intro r hr f hf
+  have h1 := (List.all_eq_true.1 h) r hr
+  have h2 := (List.all_eq_true.1 h1) f ((otherFields_mem st f).2 hf)
+  exact of_decide_eq_true h2
+
+/-- and it is complete: an unaltered output is accepted (the checker asks for nothing more) -/
+theorem check_fields_complete {β : Type} [DecidableEq β] (st : Store) (entry : Nat → Nat → Particle β)
+    (out : List (PRow β)) (h : Unaltered st entry out) : chkFields st entry out = true := by
+  refine List.all_eq_true.2 (fun r hr => List.all_eq_true.2 (fun f hf => decide_eq_true ?_))
+  exact h r hr f ((otherFields_mem st f).1 hf)
+
+omit [LE α] [LT α] [DecidableLE α] [DecidableLT α] [DecidableEq α] in
+/-- the row the model emits differs from the entry-list row only in the three store columns -/
+theorem emit_other_fields {β : Type} (st : Store) (ofInt : Int → β) (ofDist : α → β)
+    (entry : Nat → Particle β) (r : Row α) (f : Field) (hf : st.writes f = false) :
+    (emit st ofInt ofDist entry r).get f = (entry r.idx).get f := by
+  simp only [Store.writes, Bool.or_eq_false_iff, beq_eq_false_iff_ne, ne_eq] at hf
+  obtain ⟨⟨h1, h2⟩, h3⟩ := hf
+  unfold emit
+  rw [Particle.get_set_other _ _ _ _ h3, Particle.get_set_other _ _ _ _ h2, Particle.get_set_other _ _ _ _ h1]
+
+/-- **Every particle is returned exactly once, as itself** (model, all inputs, every operator table,
+every choice of the three store columns): the returned keys are a permutation of the input keys and
+each returned row equals its entry-list row in all other fields. -/
+theorem trace_returns_particles {β : Type} (o : Opts) (cs : List (Cfg α)) (st : Store) (ofInt : Int → β)
+    (ofDist : α → β) (entry : Nat → Nat → Particle β) :
+    OnceUnaltered cs st entry (emitAll st ofInt ofDist entry (runAll o cs)) := by
+  constructor
+  · have := trace_partition_all o cs
+    unfold Once at this
+    simpa [emitAll, List.map_map, Function.comp_def] using this
+  · intro r hr f hf
+    simp only [emitAll, List.mem_map] at hr
+    obtain ⟨a, _, rfl⟩ := hr
+    exact emit_other_fields st ofInt ofDist (entry a.1) a.2 f hf
+
+/-- the hypothesis of `check_fields_sound` is satisfiable and the checker discriminates: it accepts
+a row that changed only `object_id`/`geom2`/`geom4` and rejects one whose `phi` was zeroed -/
+example :
+    chkFields Store.documented (fun _ _ => Particle.ofFn (fun f => (f.idx : Int)))
+      [(0, 0, (Particle.ofFn (fun f => (f.idx : Int))).set .object_id 7)] = true ∧
+    chkFields Store.documented (fun _ _ => Particle.ofFn (fun f => (f.idx : Int)))
+      [(0, 0, (Particle.ofFn (fun f => (f.idx : Int))).set .phi 0)] = false := by decide
 
 /-! ### clauses 2 and 3 for the model through ALL branches -/
 
@@ -175,6 +276,17 @@ theorem trace_dist (cs : List (Cfg α)) (htie : NoCoincidence cs) : Dist cs (run
 consecutive distances in the window and recorded, no chain spans tomograms. -/
 theorem trace_spec_full (cs : List (Cfg α)) : SpecFull cs :=
   fun h => ⟨trace_partition_all _ cs, trace_orders cs, trace_dist cs h, trace_no_span _ cs⟩
+
+/-- **The whole statement, with "returns every particle" read in full**: besides `SpecFull`, the
+table the model returns consists of the entry-list rows themselves — every field other than
+`object_id`, `geom2`, `geom4` (the documented store columns, `store_documented`) is the input
+particle's. -/
+theorem trace_spec_full_particles {β : Type} (cs : List (Cfg α)) (ofInt : Int → β) (ofDist : α → β)
+    (entry : Nat → Nat → Particle β) :
+    SpecFull cs ∧
+    OnceUnaltered cs Store.documented entry
+      (emitAll Store.documented ofInt ofDist entry (runAll Opts.documented cs)) :=
+  ⟨trace_spec_full cs, trace_returns_particles _ cs _ ofInt ofDist entry⟩
 
 /-- the same for the operator table regenerated from the source on every check (what the driver
 executes): an edit of any of the thirteen operator sites breaks `opts_documented` and with it this -/
